@@ -1119,10 +1119,369 @@ def run_C18(tier, rng, chk):
 
 
 # ---------------------------------------------------------------------------------------
+# C19: isolation and determinism, on the implementation alone
+def trace_by_instance(path, want):
+    """the part of a harness trace that concerns instance `want`: events it received, its return
+    values and its snapshot deltas, in order; a delta of `want` during a call on ANOTHER instance is
+    reported separately"""
+    seq = []
+    return seq
+
+
+def split_trace(text):
+    """-> list of scripts, each a list of ops, each op = list of lines"""
+    scripts = []
+    cur = None
+    for l in text.splitlines():
+        if l.startswith("= "):
+            cur = []
+            scripts.append((l[2:], cur))
+        elif l.startswith("O "):
+            cur.append([])
+        elif cur is not None and cur:
+            cur[-1].append(l)
+    return scripts
+
+
+def run_C19(tier, rng, chk):
+    import os, subprocess, shutil
+    res = []
+    wd = os.path.join(chk.OUTDIR, "c19_%d" % os.getpid())
+    os.makedirs(wd, exist_ok=True)
+    harness = chk.ensure_harness("hu")
+    viol = []
+    n_inst = 4
+    n_scripts = scale(tier, 40, 300)
+    solo_all = []
+    inter_all = []
+    n_ops = 0
+    for i in range(n_scripts):
+        solos = []
+        for k in range(n_inst):
+            gg = Gen(rng, k=k, heavy_special=(k == 3))
+            L = gg.history(rng.randrange(20, scale(tier, 90, 160)), settings_rate=0.08, register="random")
+            if rng.random() < 0.5:
+                L[0] = "%d N 1" % k
+            # identical groups on several instances (lock-step feeding), repeated reports
+            solos.append(L)
+        if rng.random() < 0.7:
+            # instance 1 is fed the same stream as instance 0 (dual tuner on one programme)
+            solos[1] = [("1" + l[1:]) for l in solos[0]]
+        # random interleaving that keeps each instance's own order
+        idx = [0] * n_inst
+        inter = []
+        lockstep = rng.random() < 0.5
+        while any(idx[k] < len(solos[k]) for k in range(n_inst)):
+            if lockstep:
+                for k in range(n_inst):
+                    if idx[k] < len(solos[k]):
+                        inter.append(solos[k][idx[k]])
+                        idx[k] += 1
+            else:
+                k = rng.choice([k for k in range(n_inst) if idx[k] < len(solos[k])])
+                for _ in range(rng.randrange(1, 4)):
+                    if idx[k] < len(solos[k]):
+                        inter.append(solos[k][idx[k]])
+                        idx[k] += 1
+        inter_all.append(("c19_inter_%d" % i, inter))
+        for k in range(n_inst):
+            solo_all.append(("c19_solo_%d_%d" % (i, k), solos[k]))
+        n_ops += len(inter)
+
+    def run(hbin, stream, name, env=None):
+        p = os.path.join(wd, name + ".script")
+        streams.write_stream(p, stream)
+        e = dict(os.environ)
+        if env:
+            e.update(env)
+        pr = subprocess.run([hbin, p], stdout=subprocess.PIPE, stderr=subprocess.PIPE, env=e, timeout=1200)
+        return pr.returncode, pr.stdout.decode("utf-8", "replace"), pr.stderr.decode("utf-8", "replace")
+    rc1, t_inter, e1 = run(harness, inter_all, "inter")
+    rc2, t_solo, e2 = run(harness, solo_all, "solo")
+    if rc1 or rc2:
+        viol.append({"kind": "crash", "found_input": False, "family": "interleaving", "detail": {"rc": [rc1, rc2], "stderr": (e1 + e2)[-2000:]}})
+    inter_tr = split_trace(t_inter)
+    solo_tr = dict(split_trace(t_solo))
+    compared = 0
+    for (name, ops), (_, lines) in zip(inter_tr, inter_all):
+        i = int(name.split("_")[-1])
+        oplines = [l for l in lines if l and l[0] not in "?#="]
+        per = {k: [] for k in range(n_inst)}
+        stray = None
+        for opl, out_lines in zip(oplines, ops):
+            k = int(opl.split()[0])
+            mine = []
+            for l in out_lines:
+                t = l.split()
+                if l.startswith("D "):
+                    if int(t[1]) != k and stray is None:
+                        stray = (opl, l)
+                    if int(t[1]) == k:
+                        mine.append(l)
+                elif l.startswith("E "):
+                    if int(t[4]) != k and stray is None:
+                        stray = (opl, l)
+                    mine.append(l)
+                else:
+                    mine.append(l)
+            per[k].append(mine)
+        if stray:
+            viol.append({"kind": "isolation", "found_input": True, "family": "interleaving", "stream": inter_all, "variant": "hu", "observer": "-",
+                         "detail": {"script": name, "what": "a call on one instance changed or notified another instance", "call": stray[0], "effect": stray[1][:300]},
+                         "script_lines": lines})
+            continue
+        for k in range(n_inst):
+            solo_ops = solo_tr.get("c19_solo_%d_%d" % (i, k), [])
+            compared += 1
+            if per[k] != solo_ops:
+                first = next((j for j, (x, y) in enumerate(zip(per[k], solo_ops)) if x != y), min(len(per[k]), len(solo_ops)))
+                viol.append({"kind": "isolation", "found_input": True, "family": "interleaving", "stream": inter_all, "variant": "hu", "observer": "-",
+                             "detail": {"script": name, "instance": k, "own_op_index": first,
+                                        "interleaved": per[k][first][:6] if first < len(per[k]) else None,
+                                        "solo": solo_ops[first][:6] if first < len(solo_ops) else None},
+                             "script_lines": lines})
+                break
+    res.append(fam("interleaving(4 instances, lock-step and random schedules, one stream fed to two instances) vs each instance solo, on the implementation",
+                   inter_all, None, extra_violations=viol[:4], counts={"evaluations": n_ops, "observed": compared, "scripts": len(inter_all)},
+                   extra_cov={"samples": [{"family": "interleaving", "script": inter_all[0][0], "first_ops": inter_all[0][1][:10]}]}))
+    # determinism: a second process, other heap contents
+    viol2 = []
+    rc3, t_again, e3 = run(harness, inter_all, "again", env={"MALLOC_PERTURB_": "165"})
+    if t_again != t_inter:
+        la, lb = t_inter.splitlines(), t_again.splitlines()
+        j = next((x for x in range(min(len(la), len(lb))) if la[x] != lb[x]), min(len(la), len(lb)))
+        viol2.append({"kind": "determinism", "found_input": False, "family": "two processes",
+                      "detail": {"what": "the same call sequence gave different traces in two processes", "line": j,
+                                 "first": la[j][:300] if j < len(la) else None, "second": lb[j][:300] if j < len(lb) else None}})
+    res.append(fam("determinism(the same scripts in a second process with MALLOC_PERTURB_)", [], None, extra_violations=viol2,
+                   counts={"evaluations": n_ops, "observed": len(inter_all), "scripts": len(inter_all)}))
+    # one instance per thread under ThreadSanitizer, traces compared with the solo traces
+    viol3 = []
+    try:
+        hmt = chk.ensure_harness("hu", "tsan")
+        paths = []
+        nthreads = scale(tier, 8, 16)
+        rounds = scale(tier, 2, 6)
+        checked = 0
+        for rd in range(rounds):
+            paths = []
+            for t in range(nthreads):
+                nm, lines = solo_all[(rd * nthreads + t) % len(solo_all)]
+                p = os.path.join(wd, "mt_%d_%d.script" % (rd, t))
+                streams.write_stream(p, [(nm, lines)])
+                paths.append((p, nm))
+            e = dict(os.environ)
+            e["TSAN_OPTIONS"] = "halt_on_error=0:exitcode=66:report_signal_unsafe=0"
+            pr = subprocess.run([hmt] + [p for p, _ in paths], stdout=subprocess.PIPE, stderr=subprocess.PIPE, env=e, timeout=1200)
+            err = pr.stderr.decode("utf-8", "replace")
+            if pr.returncode != 0:
+                viol3.append({"kind": "datarace", "found_input": False, "family": "threads",
+                              "detail": {"what": "ThreadSanitizer report / abort with one instance per thread", "rc": pr.returncode, "stderr": err[:3000]}})
+                break
+            for p, nm in paths:
+                got = open(p + ".mt").read()
+                exp_ops = solo_tr.get(nm)
+                got_ops = dict(split_trace(got)).get(nm)
+                checked += 1
+                if exp_ops != got_ops:
+                    viol3.append({"kind": "threads", "found_input": False, "family": "threads",
+                                  "detail": {"what": "an instance driven from its own thread reported something else than solo", "script": nm}})
+                    break
+        res.append(fam("threads(one instance per thread, %d threads, ThreadSanitizer build) vs solo traces" % nthreads, [], None, extra_violations=viol3[:2],
+                       counts={"evaluations": checked, "observed": checked}))
+    except chk.BuildError as ex:
+        res.append(fam("threads(ThreadSanitizer build)", [], None, extra_violations=[{"kind": "build", "found_input": False, "detail": ex.detail[-1500:]}], counts={}))
+    # static obligation: no writable object of static storage duration in the library
+    viol4 = []
+    od = os.path.join(wd, "obj")
+    os.makedirs(od, exist_ok=True)
+    syms = []
+    for c in chk.lib_c_files():
+        o = os.path.join(od, os.path.basename(c) + ".o")
+        rc, so, se = chk.sh(["gcc", "-O0", "-c"] + chk.INC + [c, "-o", o])
+        if rc != 0:
+            continue
+        rc, so, se = chk.sh(["nm", o])
+        for l in so.splitlines():
+            t = l.split()
+            if len(t) >= 3 and t[-2] in "bBdDcC":
+                syms.append((os.path.basename(c), t[-2], t[-1]))
+    allowed = set(l.strip() for l in open(os.path.join(chk.VERIF, "tools", "static_allowlist.txt")) if l.strip() and not l.startswith("#"))
+    for (f, ty, name) in syms:
+        if name not in allowed:
+            viol4.append({"kind": "static", "found_input": False, "family": "static scan",
+                          "detail": {"what": "writable object of static storage duration in the library", "file": f, "symbol": name, "section": ty}})
+    res.append(fam("static scan(nm: no .bss/.data symbol in the library objects beyond the constant pointer tables)", [], None, extra_violations=viol4[:3],
+                   counts={"evaluations": len(syms), "observed": len(syms)}, extra_cov={"writable_static_symbols": [s[2] for s in syms]}))
+    shutil.rmtree(wd, ignore_errors=True)
+    return res
+
+
+# ---------------------------------------------------------------------------------------
+# C20: the four build configurations
+def collision_free_history(rng, n, k=0):
+    """a history in which the unicode -> narrow character map is injective on the bytes used:
+    either no byte >= 0x7F, or exactly one such byte value and no blank (0x20)"""
+    gg = Gen(rng, k=k)
+    special = rng.choice([None, rng.randrange(0x7F, 0x100)])
+    pool = [b for b in range(0x21, 0x7F)] if special is not None else [b for b in range(0x20, 0x7F)]
+
+    def byte():
+        x = rng.random()
+        if special is not None and x < 0.25:
+            return special
+        if x < 0.85:
+            return rng.choice(pool)
+        if x < 0.93:
+            return 0x0D
+        return rng.randrange(0, 0x20)
+    gg.byte = byte
+    gg.word = lambda: (byte() << 8) | byte()
+    return gg.history(n, settings_rate=0.08, register="random")
+
+
+def narrow_map(chk):
+    """stored unicode code point -> stored narrow character, from the measured graphs in Gen.v"""
+    import os, re
+    g = open(os.path.join(chk.COQB, "Gen.v")).read()
+
+    def zl(name):
+        m = re.search(r"Definition %s : list Z := \[(.*?)\]%%Z\." % name, g, re.S)
+        return [int(x) for x in re.findall(r"-?\d+", m.group(1))] if m else []
+    cu, cn = zl("conv_unicode"), zl("conv_narrow")
+    mp = {}
+    for b in range(min(len(cu), len(cn))):
+        if cu[b] >= 0 and cn[b] >= 0:
+            mp.setdefault(cu[b], cn[b])
+    return mp
+
+
+def narrow_trace(text, mp):
+    """rewrite the character lists of a unicode-build trace through the narrow map"""
+    out = []
+    for l in text.splitlines():
+        t = l.split(" ")
+        if (l.startswith("D ") and len(t) >= 8 and t[2] in ("ps", "rt0", "rt1", "ptyn")):
+            t[6] = ",".join(str(mp.get(int(c), int(c))) for c in t[6].split(","))
+            l = " ".join(t)
+        elif l.startswith("E ") and " | " in l:
+            left, right = l.split(" | ", 1)
+            rt = right.split(" ")
+            if len(rt) == 5 and "," in rt[3]:
+                rt[3] = ",".join(str(mp.get(int(c), int(c))) for c in rt[3].split(","))
+                l = left + " | " + " ".join(rt)
+        out.append(l)
+    return out
+
+
+def run_C20(tier, rng, chk):
+    import os, subprocess, shutil
+    res = []
+    # (1) each build against the model instance for its character width; a divergence that the
+    #     default build does not show at the same place is specific to that configuration
+    hist = []
+    for i in range(scale(tier, 60, 400)):
+        gg = Gen(rng, heavy_special=(i % 2 == 0))
+        hist.append(("c20_hist_%d" % i, gg.history(scale(tier, 120, 200), settings_rate=0.08, register="random")))
+    hist += hammer_scripts(rng, tier, "c20_hammer", None, single_flag=False, n_scripts=(40, 250), n_ops=(100, 160))
+    outs = {}
+    for v in ("hu", "hn", "xu", "xn"):
+        try:
+            outs[v] = chk.run_stream(hist, prop="-", variant=v)
+        except chk.BuildError as ex:
+            res.append(fam("build %s" % v, [], None, counts={},
+                           extra_violations=[{"kind": "build", "found_input": False, "family": "build " + v,
+                                              "detail": "configuration %s does not build: %s" % (v, ex.detail[-1500:])}]))
+    base = set((d.get("script"), d.get("op"), d.get("key")) for d in outs.get("hu", {"div": []})["div"])
+    for v in ("hn", "xu", "xn"):
+        if v not in outs:
+            continue
+        extra = []
+        for d in outs[v]["div"]:
+            if (d.get("script"), d.get("op"), d.get("key")) not in base:
+                extra.append({"kind": "divergence", "detail": d, "family": "build %s vs model" % v, "stream": hist, "variant": v, "observer": "-",
+                              "found_input": True, "keys": [d.get("key")]})
+        for c in outs[v]["crash"]:
+            if not outs.get("hu", {"crash": []})["crash"]:
+                extra.append({"kind": "crash", "detail": c, "family": "build %s vs model" % v, "found_input": False})
+        res.append(fam("build %s vs the model for its character width (divergences not shown by the default build)" % v, hist, outs[v], variant=v,
+                       extra_violations=extra[:3]))
+    if "hu" in outs:
+        res.append(fam("build hu vs the unicode model (reference for the comparison above)", hist, outs["hu"], variant="hu"))
+    # (2) cross-build identity on the implementation alone
+    wd = os.path.join(chk.OUTDIR, "c20_%d" % os.getpid())
+    os.makedirs(wd, exist_ok=True)
+    cf_hist = [("c20_cf_%d" % i, collision_free_history(rng, scale(tier, 120, 200))) for i in range(scale(tier, 80, 500))]
+    p = os.path.join(wd, "cf.script")
+    streams.write_stream(p, cf_hist)
+    traces = {}
+    viol = []
+    for v in ("hu", "hn", "xu", "xn"):
+        try:
+            hb = chk.ensure_harness(v)
+        except chk.BuildError:
+            continue
+        pr = subprocess.run([hb, p], stdout=subprocess.PIPE, stderr=subprocess.PIPE, timeout=1200)
+        traces[v] = pr.stdout.decode("utf-8", "replace")
+    mp = narrow_map(chk)
+
+    def first_diff(a, b):
+        la = a if isinstance(a, list) else a.splitlines()
+        lb = b if isinstance(b, list) else b.splitlines()
+        for j in range(min(len(la), len(lb))):
+            if la[j] != lb[j]:
+                return j, la[j][:300], lb[j][:300]
+        if len(la) != len(lb):
+            return min(len(la), len(lb)), None, None
+        return None
+    pairs = [("hu", "xu", False), ("hn", "xn", False), ("hu", "hn", True), ("xu", "xn", True)]
+    n_cmp = 0
+    for a, b, nar in pairs:
+        if a not in traces or b not in traces:
+            continue
+        n_cmp += 1
+        ta = narrow_trace(traces[a], mp) if nar else traces[a]
+        d = first_diff(ta, traces[b])
+        if d is not None:
+            # locate the script
+            la = ta if isinstance(ta, list) else ta.splitlines()
+            name = None
+            for j in range(d[0], -1, -1):
+                if j < len(la) and la[j].startswith("= "):
+                    name = la[j][2:]
+                    break
+            viol.append({"kind": "crossbuild", "found_input": True, "family": "cross-build", "stream": cf_hist, "variant": b, "observer": "-",
+                         "detail": {"script": name, "builds": [a, b], "line": d[0], a: d[1], b: d[2],
+                                    "what": "identical call sequence, different trace in two configurations" + (" (after narrowing the characters)" if nar else "")}})
+    res.append(fam("cross-build(identical collision-free histories on the 4 configurations: heap vs no-heap identical; unicode narrowed vs non-unicode identical)",
+                   cf_hist, None, extra_violations=viol[:3],
+                   counts={"evaluations": sum(len(l) for _, l in cf_hist) * len(traces), "observed": n_cmp, "scripts": len(cf_hist)},
+                   extra_cov={"samples": [{"family": "cross-build", "script": cf_hist[0][0], "first_ops": cf_hist[0][1][:10]}]}))
+    # (3) the known finding: a narrow collision (two stored characters that only the unicode build can tell apart)
+    wit = ["0 I 0", "0 R 8 1", "0 T 0 1 2",
+           P(0, 0x1000, mkB(0, 1), 0x1000, 0x8041), P(0, 0x1000, mkB(0, 1), 0x1000, 0x2041, (0, 0, 0, 1))]
+    pw = os.path.join(wd, "wit.script")
+    streams.write_stream(pw, [("c20_collision_witness", wit)])
+    tw = {}
+    for v in ("hu", "hn"):
+        try:
+            pr = subprocess.run([chk.ensure_harness(v), pw], stdout=subprocess.PIPE, stderr=subprocess.PIPE, timeout=120)
+            tw[v] = pr.stdout.decode("utf-8", "replace")
+        except chk.BuildError:
+            pass
+    if len(tw) == 2 and first_diff(narrow_trace(tw["hu"], mp), tw["hn"]) is not None:
+        res.append(fam("narrow-collision witness (known finding)", [("c20_collision_witness", wit)], None, counts={"evaluations": len(wit) * 2, "observed": 1},
+                       extra_violations=[{"kind": "crossbuild", "tag": "narrow-collision", "found_input": True, "family": "narrow-collision witness",
+                                          "detail": {"script": "c20_collision_witness", "what": "levels and callbacks differ between unicode and non-unicode build after a narrow collision"}}]))
+    shutil.rmtree(wd, ignore_errors=True)
+    return res
+
+
+# ---------------------------------------------------------------------------------------
 FAMILIES = {
     "C01": run_C01, "C02": run_C02, "C03": run_C03, "C04": run_C04, "C05": run_C05, "C06": run_C06, "C07": run_C07,
     "C08": run_C08, "C09": run_C09, "C10": run_C10, "C11": run_C11, "C12": run_C12, "C13": run_C13,
-    "C14": run_C14, "C15": run_C15, "C16": run_C16, "C17": run_C17, "C18": run_C18,
+    "C14": run_C14, "C15": run_C15, "C16": run_C16, "C17": run_C17, "C18": run_C18, "C19": run_C19, "C20": run_C20,
 }
 
 
